@@ -508,9 +508,10 @@ PROPS['C13'] = dict(
 
 # ---------------------------------------------------------------- C17
 def c17_jobs(tier):
-    jobs = [Job('units', 'c17', 'units', 0), Job('pairs', 'c17', 'pairs', 0), Job('bytes', 'c17', 'bytes', 0)]
+    jobs = [Job('units', 'c17', 'units', 0), Job('pairs', 'c17', 'pairs', 0), Job('bytes', 'c17', 'bytes', 0), Job('positions', 'c17', 'positions', 0)]
+    cfg = {'ARDUINOJSON_STRING_LENGTH_SIZE': 1, 'ARDUINOJSON_SLOT_ID_SIZE': 1, 'ARDUINOJSON_DEBUG': 1, 'ARDUINOJSON_ENABLE_COMMENTS': 1}
+    jobs.append(Job('positions-cfg', 'c17', 'positions', 230, defines=cfg))   # strings stay below the 255-byte limit of this build
     if tier == 'thorough':
-        cfg = {'ARDUINOJSON_STRING_LENGTH_SIZE': 1, 'ARDUINOJSON_SLOT_ID_SIZE': 1, 'ARDUINOJSON_DEBUG': 1, 'ARDUINOJSON_ENABLE_COMMENTS': 1}
         jobs += [Job('units-cfg', 'c17', 'units', 0, defines=cfg), Job('pairs-cfg', 'c17', 'pairs', 0, defines=cfg), Job('bytes-cfg', 'c17', 'bytes', 0, defines=cfg)]
     return jobs
 
@@ -519,7 +520,7 @@ PROPS['C17'] = dict(
     level='exploration',
     rule='complete enumeration used as workload: all 65536 \\\\uXXXX code units x 3 positions x upper/lower hex x value/key (surrogates alone: safety only); all 1024 x 1024 surrogate pairs '
          '(random position, hex case, value/key, single- and double-quoted); all 256 single bytes and all 65536 byte pairs as string value and as key through serializeJson -> deserializeJson, '
-         'with the serialized text compared against the reference escaper (only " \\\\ \\\\b \\\\f \\\\n \\\\r \\\\t and NUL altered); 8 orders of unpaired surrogates per row (safety). distinct = code unit / high surrogate / first byte',
+         'with the serialized text compared against the reference escaper (only " \\\\ \\\\b \\\\f \\\\n \\\\r \\\\t and NUL altered); 8 orders of unpaired surrogates per row (safety); 14 code points of every encoded length (once to three times in a row) after 0..699 already decoded bytes, as value and as key (every growth step of the string builder). distinct = code unit / high surrogate / first byte',
     jobs=c17_jobs,
     exhaustive=lambda tier: True,
     min_evaluations=dict(quick=66000, thorough=130000),
@@ -535,10 +536,9 @@ PROPS['C17'] = dict(
 def c18_jobs(tier):
     jobs = [Job('pairs', 'c18', 'pairs', 0, timeout=q(tier, 900, 3600)), Job('scalars', 'c18', 'scalars', 0),
             Job('containers', 'c18', 'containers', q(tier, 300000, 20000000), timeout=q(tier, 900, 7200))]
-    if tier == 'thorough':
-        for i, cfg in enumerate([{'ARDUINOJSON_USE_DOUBLE': 0}, {'ARDUINOJSON_SLOT_ID_SIZE': 2, 'ARDUINOJSON_STRING_LENGTH_SIZE': 1, 'ARDUINOJSON_DEBUG': 1}]):
-            jobs += [Job('pairs-cfg%d' % i, 'c18', 'pairs', 0, defines=cfg, timeout=3600), Job('scalars-cfg%d' % i, 'c18', 'scalars', 0, defines=cfg),
-                     Job('containers-cfg%d' % i, 'c18', 'containers', 4000000, defines=cfg, timeout=7200)]
+    for i, cfg in enumerate([{'ARDUINOJSON_USE_DOUBLE': 0}, {'ARDUINOJSON_SLOT_ID_SIZE': 2, 'ARDUINOJSON_STRING_LENGTH_SIZE': 1, 'ARDUINOJSON_DEBUG': 1}]):
+        jobs += [Job('pairs-cfg%d' % i, 'c18', 'pairs', 0, defines=cfg, timeout=3600), Job('scalars-cfg%d' % i, 'c18', 'scalars', 0, defines=cfg),
+                 Job('containers-cfg%d' % i, 'c18', 'containers', q(tier, 60000, 4000000), defines=cfg, timeout=7200)]
     return jobs
 
 
